@@ -252,6 +252,12 @@ func (s *Server) DialClient(ctx context.Context, link *protocol.Link) (net.Conn,
 		return clientConn, nil
 	}
 
+	if len(ret.routes) > 0 {
+		// the hostname has routes, but none of their clients could be reached (dial error,
+		// remote error status, failed hand-off): that is "not connected", not "not found"
+		isNoRoute = true
+	}
+
 	if isNoRoute {
 		return nil, tun.ErrTunnelClientNotConnected
 	}
